@@ -9,9 +9,10 @@ Model/CondTypeRange.lean (`outOfRange` = checkCompareValueOutOfTypeRange, `bitCm
 
 All theorems quantify over every expression of the language (structural / fuel induction), every semantics record `S`
 (types of the variables, type and value of the number tokens) and every environment; an evaluation that runs into
-undefined behaviour has no value and is not constrained.  Hypotheses are decidable predicates on the inputs:
+undefined behaviour has no value and is not constrained.  The model is the code after the fixes e3a434e (F03a) and
+e82cb03 (F03c); the pre-fix functions (`isSameOld`, `bitCmpFindingsOld`) only occur in the counterexample theorems.
+Hypotheses are decidable predicates on the inputs:
   annOK S e    the annotations cppcheck attached (value types, Known values) agree with the semantics `S`
-  eqNeSafe e   excludes the inputs of finding F03a (`==|!=` with a Known operand other than 0/1 against a bool expression)
   cmpSafe S e  excludes the inputs of finding F03b (a comparison with a Known operand whose usual arithmetic conversions
                change an operand's value: signed value converted to unsigned)
   S.lval "0" = 0
@@ -25,11 +26,11 @@ namespace Cppcheck.CondExpr
     operator) they have the same value and the same type. -/
 theorem same_sound (S : Sem) (cpp : Bool) (c1 c2 : Ctx) (e1 e2 : Expr)
     (h : isSame cpp c1 e1 c2 e2 = true)
-    (a1 : annOK S e1 = true) (a2 : annOK S e2 = true) (s1 : eqNeSafe e1 = true) (s2 : eqNeSafe e2 = true) :
+    (a1 : annOK S e1 = true) (a2 : annOK S e2 = true) :
     ∀ ρ v1 v2, eval S ρ e1 = some v1 → eval S ρ e2 = some v2 →
       (v1 ≠ 0 ↔ v2 ≠ 0) ∧ (c1 = .cop → c2 = .cop → v1 = v2 ∧ tyOf S e1 = tyOf S e2) := by
   intro ρ v1 v2 h1 h2
-  have hs := isSame_sound (S := S) (ρ := ρ) h ⟨a1, s1⟩ ⟨a2, s2⟩ h1 h2
+  have hs := isSame_sound (S := S) (ρ := ρ) h ⟨a1⟩ ⟨a2⟩ h1 h2
   refine ⟨hs.truthy, ?_⟩
   rintro rfl rfl
   exact Sim.cop a1 a2 h1 h2 hs
@@ -37,9 +38,9 @@ theorem same_sound (S : Sem) (cpp : Bool) (c1 c2 : Ctx) (e1 e2 : Expr)
 /-- the precise relation: equal value and type, or both occurrences "used as bool" and equal truth value -/
 theorem same_sound_sim (S : Sem) (cpp : Bool) (c1 c2 : Ctx) (e1 e2 : Expr)
     (h : isSame cpp c1 e1 c2 e2 = true)
-    (a1 : annOK S e1 = true) (a2 : annOK S e2 = true) (s1 : eqNeSafe e1 = true) (s2 : eqNeSafe e2 = true) :
+    (a1 : annOK S e1 = true) (a2 : annOK S e2 = true) :
     ∀ ρ v1 v2, eval S ρ e1 = some v1 → eval S ρ e2 = some v2 → Sim S c1 e1 v1 c2 e2 v2 :=
-  fun _ _ _ h1 h2 => isSame_sound h ⟨a1, s1⟩ ⟨a2, s2⟩ h1 h2
+  fun _ _ _ h1 h2 => isSame_sound h ⟨a1⟩ ⟨a2⟩ h1 h2
 
 /-! concrete expressions for the examples and counterexamples -/
 
@@ -73,57 +74,57 @@ def exLtBig : Expr := .bin (opAnn 3 vtBool) .lt exA (.lit (litAnn 4 vtULong 5000
 
 /-- the hypotheses of `same_sound` are satisfiable with a positive answer: `a < b` against `!!(a < b)` -/
 example : isSame false .cond exLt .cond (.un (opAnn 7 vtBool) .lnot exNot) = true ∧
-    annOK exS exLt = true ∧ annOK exS (.un (opAnn 7 vtBool) .lnot exNot) = true ∧
-    eqNeSafe exLt = true ∧ eqNeSafe (.un (opAnn 7 vtBool) .lnot exNot) = true := by decide
+    annOK exS exLt = true ∧ annOK exS (.un (opAnn 7 vtBool) .lnot exNot) = true := by decide
 
-/-- Finding F03a: without `eqNeSafe` the statement is false of the code's rule — `(a < b) != 2` is "the same
-    expression" as `!(a < b)` for isSameExpression (astutils.cpp:1701: any Known value other than 0 is treated like 1),
-    but for a = 1, b = 2 the first is true and the second false. -/
-theorem same_sound_counterexample :
-    ¬ ∀ (S : Sem) (e1 e2 : Expr), isSame false .cond e1 .cond e2 = true → annOK S e1 = true → annOK S e2 = true →
+/-- Finding F03a (fixed by e3a434e): the statement was false of the pre-fix rule — `(a < b) != 2` was "the same
+    expression" as `!(a < b)` for isSameExpression (astutils.cpp:1701: any Known value other than 0 was treated like 1),
+    but for a = 1, b = 2 the first is true and the second false.  The fixed rule rejects the pair. -/
+theorem same_sound_prefix_counterexample :
+    ¬ ∀ (S : Sem) (e1 e2 : Expr), isSameOld false .cond e1 .cond e2 = true → annOK S e1 = true → annOK S e2 = true →
         ∀ ρ v1 v2, eval S ρ e1 = some v1 → eval S ρ e2 = some v2 → (v1 ≠ 0 ↔ v2 ≠ 0) := by
   intro h
   have := h exS exNe2 exNot (by decide) (by decide) (by decide) (fun x => if x = 1 then 1 else 2) 1 0 (by decide) (by decide)
   simp at this
+
+example : isSame false .cond exNe2 .cond exNot = false := by decide
 
 /-! ### isOppositeCond -/
 
 /-- `isOppositeCond(isNot = false, …)` is sound: the two conditions are never both true. -/
 theorem opposite_sound (S : Sem) (cpp : Bool) (c1 c2 : Ctx) (e1 e2 : Expr) (hz : S.lval ['0'] = 0)
     (h : isOpp cpp false c1 e1 c2 e2 = true)
-    (a1 : annOK S e1 = true) (a2 : annOK S e2 = true) (s1 : eqNeSafe e1 = true) (s2 : eqNeSafe e2 = true)
+    (a1 : annOK S e1 = true) (a2 : annOK S e2 = true)
     (m1 : cmpSafe S e1 = true) (m2 : cmpSafe S e2 = true) :
     ∀ ρ v1 v2, eval S ρ e1 = some v1 → eval S ρ e2 = some v2 → ¬(v1 ≠ 0 ∧ v2 ≠ 0) := by
   intro ρ v1 v2 h1 h2
-  have := isOppF_sound S cpp ρ hz false _ c1 e1 c2 e2 ⟨⟨a1, s1⟩, fun _ => m1⟩ ⟨⟨a2, s2⟩, fun _ => m2⟩ h v1 v2 h1 h2
+  have := isOppF_sound S cpp ρ hz false _ c1 e1 c2 e2 ⟨⟨a1⟩, fun _ => m1⟩ ⟨⟨a2⟩, fun _ => m2⟩ h v1 v2 h1 h2
   simpa [Opp] using this
 
 /-- `isOppositeCond(isNot = true, …)` is sound: exactly one of the two conditions is true (no `cmpSafe` needed: the
     Known-value rules are not used with `isNot`). -/
 theorem opposite_not_sound (S : Sem) (cpp : Bool) (c1 c2 : Ctx) (e1 e2 : Expr) (hz : S.lval ['0'] = 0)
     (h : isOpp cpp true c1 e1 c2 e2 = true)
-    (a1 : annOK S e1 = true) (a2 : annOK S e2 = true) (s1 : eqNeSafe e1 = true) (s2 : eqNeSafe e2 = true) :
+    (a1 : annOK S e1 = true) (a2 : annOK S e2 = true) :
     ∀ ρ v1 v2, eval S ρ e1 = some v1 → eval S ρ e2 = some v2 → (v1 ≠ 0 ↔ ¬ v2 ≠ 0) := by
   intro ρ v1 v2 h1 h2
-  have := isOppF_sound S cpp ρ hz true _ c1 e1 c2 e2 ⟨⟨a1, s1⟩, fun q => by simp at q⟩ ⟨⟨a2, s2⟩, fun q => by simp at q⟩
+  have := isOppF_sound S cpp ρ hz true _ c1 e1 c2 e2 ⟨⟨a1⟩, fun q => by simp at q⟩ ⟨⟨a2⟩, fun q => by simp at q⟩
     h v1 v2 h1 h2
   simpa [Opp] using this
 
 /-- hypotheses satisfiable with a positive answer: `a < b` / `a >= b` (strictly opposite), `a < 3` / `a > 5` (Known rule) -/
-example : isOpp false true .cond exLt .cond exGe = true ∧ annOK exS exLt = true ∧ annOK exS exGe = true ∧
-    eqNeSafe exLt = true ∧ eqNeSafe exGe = true ∧ exS.lval ['0'] = 0 := by decide
+example : isOpp false true .cond exLt .cond exGe = true ∧ annOK exS exLt = true ∧ annOK exS exGe = true ∧ exS.lval ['0'] = 0 := by decide
 example : isOpp false false .cond exLt3 .cond exGt5 = true ∧ annOK exS exLt3 = true ∧ annOK exS exGt5 = true ∧
-    cmpSafe exS exLt3 = true ∧ cmpSafe exS exGt5 = true ∧ eqNeSafe exLt3 = true ∧ eqNeSafe exGt5 = true := by decide
+    cmpSafe exS exLt3 = true ∧ cmpSafe exS exGt5 = true := by decide
 
 /-- Finding F03b: without `cmpSafe` the statement is false of the code's rule — `a < 3` and `a > 5U` (int a) are
     "opposite" for isOppositeCond (astutils.cpp:2004 compares the two Known values 3 < 5 and ignores that the second
     comparison is done in `unsigned int`); for a = -1 both are true. -/
 theorem opposite_sound_counterexample :
     ¬ ∀ (S : Sem) (e1 e2 : Expr), S.lval ['0'] = 0 → isOpp false false .cond e1 .cond e2 = true →
-        annOK S e1 = true → annOK S e2 = true → eqNeSafe e1 = true → eqNeSafe e2 = true →
+        annOK S e1 = true → annOK S e2 = true →
         ∀ ρ v1 v2, eval S ρ e1 = some v1 → eval S ρ e2 = some v2 → ¬(v1 ≠ 0 ∧ v2 ≠ 0) := by
   intro h
-  have := h exS exLt3 exGt5U (by decide) (by decide) (by decide) (by decide) (by decide) (by decide)
+  have := h exS exLt3 exGt5U (by decide) (by decide) (by decide) (by decide)
     (fun _ => -1) 1 1 (by decide) (by decide)
   simp at this
 
@@ -134,12 +135,12 @@ theorem opposite_sound_counterexample :
     condition), the inner condition is false — "opposite inner condition leads to a dead code block". -/
 theorem multiCondition_opposite_sound (S : Sem) (cpp : Bool) (c1 c2 : Ctx) (outer inner : Expr) (hz : S.lval ['0'] = 0)
     (h : isOpp cpp false c1 outer c2 inner = true)
-    (a1 : annOK S outer = true) (a2 : annOK S inner = true) (s1 : eqNeSafe outer = true) (s2 : eqNeSafe inner = true)
+    (a1 : annOK S outer = true) (a2 : annOK S inner = true)
     (m1 : cmpSafe S outer = true) (m2 : cmpSafe S inner = true)
     (ρ ρ' : Env) (hw : ∀ x ∈ outer.vars, ρ' x = ρ x) (v1 v2 : Int)
     (h1 : eval S ρ outer = some v1) (ht : v1 ≠ 0) (h2 : eval S ρ' inner = some v2) : v2 = 0 := by
   have h1' : eval S ρ' outer = some v1 := by rw [eval_agree S ρ ρ' outer hw, h1]
-  have := opposite_sound S cpp c1 c2 outer inner hz h a1 a2 s1 s2 m1 m2 ρ' v1 v2 h1' h2
+  have := opposite_sound S cpp c1 c2 outer inner hz h a1 a2 m1 m2 ρ' v1 v2 h1' h2
   by_cases hv : v2 = 0
   · exact hv
   · exact absurd ⟨ht, hv⟩ this
@@ -149,11 +150,11 @@ theorem multiCondition_opposite_sound (S : Sem) (cpp : Bool) (c1 c2 : Ctx) (oute
     the outer one had (inside the `if`: true, after `if (outer) return;`: false). -/
 theorem multiCondition_same_sound (S : Sem) (cpp : Bool) (c1 c2 : Ctx) (outer inner : Expr)
     (h : isSame cpp c1 outer c2 inner = true)
-    (a1 : annOK S outer = true) (a2 : annOK S inner = true) (s1 : eqNeSafe outer = true) (s2 : eqNeSafe inner = true)
+    (a1 : annOK S outer = true) (a2 : annOK S inner = true)
     (ρ ρ' : Env) (hw : ∀ x ∈ outer.vars, ρ' x = ρ x) (v1 v2 : Int)
     (h1 : eval S ρ outer = some v1) (h2 : eval S ρ' inner = some v2) : (v1 ≠ 0 ↔ v2 ≠ 0) := by
   have h1' : eval S ρ' outer = some v1 := by rw [eval_agree S ρ ρ' outer hw, h1]
-  exact (same_sound S cpp c1 c2 outer inner h a1 a2 s1 s2 ρ' v1 v2 h1' h2).1
+  exact (same_sound S cpp c1 c2 outer inner h a1 a2 ρ' v1 v2 h1' h2).1
 
 /-! ### checkCompareValueOutOfTypeRange -/
 
@@ -225,11 +226,26 @@ example : bitCmpVerdict .band .gt false 1 1 = some false ∧
     cmpSafe exS (.bin (opAnn 5 vtBool) .gt (.bin (opAnn 2 vtInt) .band exA (.lit (litAnn 3 vtInt 1) "1".toList))
       (.lit (litAnn 6 vtInt 1) "1".toList)) = true := by decide
 
-/-- Finding F03c: `comparison()` swaps the operands when the Known value is on the left without turning the
-    comparator around: for `3 < (a & 1)` the finding computed is the one of `(a & 1) < 3` ("always true"), but the
-    expression in the program is false (here for a = 1; in fact for every a). -/
-theorem bit_compare_swapped_counterexample :
-    ∃ (l r : Expr) (f : Finding), bitCmpFindings .lt l r = [f] ∧ f.msg = "Expression '(X & 0x1) < 0x3' is always true." ∧
+/-- the same with the Known value on the left, `l op (x & n1)`: the verdict is the one of the comparator turned around -/
+theorem bitand_compare_sound_left (S : Sem) (a a' an : Ann) (op : BinOp) (x l r : Expr) (sp : List Char) (n1 n2 : Int)
+    (uns b : Bool)
+    (hr : r = .bin a' .band x (.lit an sp) ∨ r = .bin a' .band (.lit an sp) x)
+    (hc : op.isCmp = true) (g : annOK S (.bin a op l r) = true) (hs : cmpSafe S (.bin a op l r) = true)
+    (hk : l.ann.known = some n2) (hn2 : 0 ≤ n2) (hnum : an.num = some n1)
+    (hv : bitCmpVerdict .band (flipOp op) uns n1 n2 = some b) :
+    ∀ ρ v, eval S ρ (.bin a op l r) = some v → v = b2i b :=
+  fun _ _ he => bitand_cmp_sound_left hr hc g hs hk hn2 hnum hv he
+
+/-- `3 < (a & 1)`: the finding is now the one of `(a & 1) > 3`, "always false", which is what the expression is -/
+example : (bitCmpFindings .lt (.lit (litAnn 1 vtInt 3) "3".toList)
+      (.bin (opAnn 4 vtInt) .band exA (.lit (litAnn 5 vtInt 1) "1".toList))).map (·.msg) =
+    ["Expression '(X & 0x1) > 0x3' is always false."] := by decide
+
+/-- Finding F03c (fixed by e82cb03): before the fix `comparison()` swapped the operands when the Known value was on the
+    left without turning the comparator around: for `3 < (a & 1)` the finding computed was the one of `(a & 1) < 3`
+    ("always true"), but the expression in the program is false (here for a = 1; in fact for every a). -/
+theorem bit_compare_prefix_counterexample :
+    ∃ (l r : Expr) (f : Finding), bitCmpFindingsOld .lt l r = [f] ∧ f.msg = "Expression '(X & 0x1) < 0x3' is always true." ∧
       eval exS (fun _ => 1) (.bin (opAnn 5 vtBool) .lt l r) = some 0 :=
   ⟨.lit (litAnn 1 vtInt 3) "3".toList, .bin (opAnn 4 vtInt) .band exA (.lit (litAnn 5 vtInt 1) "1".toList), _, rfl,
    by decide, by decide⟩
